@@ -455,7 +455,14 @@ def run(ctx):
     if os.path.isdir(cdir):
         for f in sorted(os.listdir(cdir)):
             if f.endswith(".json"):
-                replay_obj(ctx, b, json.load(open(os.path.join(cdir, f))), model_exe, corpus=True)
+                cj = json.load(open(os.path.join(cdir, f)))
+                # a corpus file may name the regenerated switches it needs (the failing input of a repair is replayed once
+                # the source has the repair; before, it is the repair's own replay file)
+                if all(cfg.get(k) == v for k, v in cj.get("requires", {}).items()):
+                    ctx.hist("corpus", f)
+                    replay_obj(ctx, b, cj, model_exe, corpus=True)
+                else:
+                    ctx.hist("corpus", f + " (skipped: source without the repair)")
     tot_v = tot_c = 0
     for lib in libs:
         cases = gen_cases(ctx, lib, 42 if quick else 240, allowed_comment_classes(cfg))
